@@ -88,7 +88,7 @@ def is_nontrivial(seq, preset) -> bool:
         preset[2] and len(dt) > preset[2])
 
 
-def run_job(job, judge) -> dict:
+def run_job(job, judge, include_out_of_domain: bool = False) -> dict:
     kind, scope, cls, pi, L, lo, hi = job
     acc = pool.Acc()
     arity = 3 if cls == "triple" else 4
@@ -104,11 +104,15 @@ def run_job(job, judge) -> dict:
         for cpi, fs, dl, writer in configs:
             preset = presets[cpi]
             acc.evals += 1
-            if not all(AL.fits(st, preset) for st in seq):
+            ood = not all(AL.fits(st, preset) for st in seq)
+            if ood:
                 acc.counters["out_of_domain"] += 1
-                continue
+                if not include_out_of_domain:
+                    continue
             case = {"scope": scope, "cls": cls, "preset": list(preset), "frame_size": fs,
                     "delimited": dl, "writer": writer, "seq": list(sym)}
+            if ood:
+                case["out_of_domain"] = True
             if is_nontrivial(seq, preset):
                 acc.nontrivial += 1
             try:
